@@ -127,7 +127,8 @@ def rng_choice(c):
 def capped(rng, n_cases, res):
     cases = []
     for _ in range(n_cases):
-        def one(): return rng.choice([0.1, 1 / 3.0, -0.7, rng.uniform(-100, 100), rng.uniform(-1, 1) * 2.0 ** rng.randint(-10, 30), math.pi, 1000.1])
+        def one(): return rng.choice([0.1, 1 / 3.0, -0.7, rng.uniform(-100, 100), rng.uniform(-1, 1) * 2.0 ** rng.randint(-10, 30), math.pi, 1000.1,
+                                      2.0 ** rng.randint(20, 50) + rng.choice([0, 0.5, 1]), 2.0 ** -rng.randint(30, 75), -2.0 ** rng.randint(20, 50), 3 * 2.0 ** -rng.randint(20, 45)])      # (wide dynamic range: the cap shortens the fraction)
         vs = [one() for _ in range(rng.choice([1, 1, 2, 3]))]
         signed = rng.choice([True, None, False])
         if signed is False: vs = [abs(v) for v in vs]
@@ -148,6 +149,14 @@ def run_capped(cases, res):
         got = [Fraction(cd) / Fraction(2) ** x.n_frac for cd in lib.codes_of(x)]; lsb = Fraction(2) ** (-x.n_frac)
         bad = [(str(g), repr(v)) for g, v in zip(got, vs) if abs(g - Fraction(v)) >= lsb]
         inexact = any(g != Fraction(v) for g, v in zip(got, vs))
+        # the model of the size inference (opcode 100): the same format, the cap and the shortened fraction length included
+        sgn_ = 2 if c['signed'] is None else (1 if c['signed'] else 0)
+        mo_ = model_call([[100, sgn_, 1 if c.get('n_word') else 0, c.get('n_word') or 0, 0, 0, 0, 0, 1] + e_list([Fraction(v) for v in vs], e_dy)])[0]
+        kind_, rd_ = outcome(mo_)
+        mfmt = (rd_.b(), rd_.z(), rd_.z()) if kind_ == 'ok' else None
+        in_model = all(Fraction(v).denominator <= 2 ** 52 for v in vs)      # (the model computes v mod 1 and the residues exactly: so does the implementation, in doubles, for multiples of 2^-52; and the default max_error 2^-63 never stops the search on them)
+        if in_model and (kind_ != 'ok' or mfmt != (bool(x.signed), int(x.n_word), int(x.n_frac))):
+            res.fail(c, 'model Sizes.init_size disagrees with the implementation on a capped / non-dyadic input although the property holds', expected=str((kind_, mfmt)), got=(bool(x.signed), int(x.n_word), int(x.n_frac))); res.failures[-1]['no_input'] = True; continue
         if x.n_word > 64 or (c.get('n_word') and x.n_word != c['n_word']) or bad or (inexact and not x.status['inaccuracy']) or x.status['overflow'] or x.status['underflow']:
             res.fail(c, 'C06: capped inference exceeds the word limit, or errs by a full LSB (overflow), or is not flagged inexact', expected='word within the limit, every element within 1 LSB, only the inaccuracy flag', got=(x.dtype, bad[:3], {k: v for k, v in x.status.items() if v}))
 
